@@ -1,6 +1,7 @@
 (* CliCompose.v — compositions of CliArchive.v with C16 (PathBenign) and with itself:
      both forms of `extract` of a created archive leave, for benign names, the same files with the
      bytes given; `convert` to another configuration followed by list / cat on the new archive. *)
+From MLA Require Import Limit.
 From MLA Require Import Base Stream Blocks Writer Reader RoundTripBlocks RoundTripWriter RoundTripReader RoundTrip
   CompLayer EncLayer Format Ecies Archive ArchiveProofs LinearRoundTripDefs LinearProofs LinearRoundTrip
   Path PathProofs PathBenign Tar TarProofs Cli CliProofs CliArchive.
@@ -34,6 +35,7 @@ Proof. intros Hnd Hin. eapply Permutation_in; [symmetry; apply sorted_files_perm
 
 Section Compose.
   Variables CHUNK TAG CIPHERBUF BLOCK LIMIT FNMAX : N.
+  Local Hint Extern 0 Limit => exact LIMIT : typeclass_instances.
   Variables TS TC TA TE : N.
   Variable H : bytes -> bytes.
   Variable order : footer -> footer.
